@@ -1,6 +1,6 @@
 SPECIFICATION Spec
 CONSTANTS
-  MaxNodes = 6
+  MaxNodes = 5
   MaxAttrs = 2
 INVARIANT CodeNeverStricter
 INVARIANT DiffOnlyUnderAlias
